@@ -61,25 +61,15 @@ impl LogicalLinesReconstructor for DelphiLogicalLinesReconstructor {
         formatted_tokens
             .tokens()
             .for_each(|(token, formatting_data)| {
-                let is_eof = matches!(token.get_token_type(), TokenType::Eof);
+                if self.lacks_required_line_break(must_break, (token, formatting_data)) {
+                    log::warn!("{}", MISSING_LINE_BREAK_WARN);
+                    buf.push_str(self.reconstruction_settings.get_newline_str());
+                }
 
                 if formatting_data.is_ignored() {
-                    if must_break
-                        && !token.get_leading_whitespace().contains(['\n', '\r'])
-                        && !is_eof
-                    {
-                        log::warn!("{}", MISSING_LINE_BREAK_WARN);
-                        buf.push_str(self.reconstruction_settings.get_newline_str());
-                    };
                     buf.push_str(token.get_leading_whitespace());
                 } else {
-                    let nls = if must_break && formatting_data.newlines_before == 0 && !is_eof {
-                        log::warn!("{}", MISSING_LINE_BREAK_WARN);
-                        1
-                    } else {
-                        formatting_data.newlines_before
-                    };
-                    (0..nls)
+                    (0..formatting_data.newlines_before)
                         .for_each(|_| buf.push_str(self.reconstruction_settings.get_newline_str()));
                     (0..formatting_data.indentations_before).for_each(|_| {
                         buf.push_str(self.reconstruction_settings.get_indentation_str())
@@ -205,6 +195,23 @@ struct NonBreakingWs {
 }
 
 impl DelphiLogicalLinesReconstructor {
+    /// Whether a line break has to be added in front of the token, because it follows a
+    /// single-line comment without a line break of its own
+    fn lacks_required_line_break(
+        &self,
+        after_singleline_comment: bool,
+        (token, formatting_data): (&Token, &FormattingData),
+    ) -> bool {
+        let has_line_break = if formatting_data.is_ignored() {
+            token.get_leading_whitespace().contains(['\n', '\r'])
+        } else {
+            formatting_data.newlines_before > 0
+        };
+        after_singleline_comment
+            && !has_line_break
+            && !matches!(token.get_token_type(), TokenType::Eof)
+    }
+
     fn ws_len(&self, token: (&Token, &FormattingData)) -> usize {
         if token.1.is_ignored() {
             token.0.get_leading_whitespace().len()
@@ -295,12 +302,20 @@ impl DelphiLogicalLinesReconstructor {
 
     fn offset_for_token(&self, formatted_tokens: &FormattedTokens, token_idx: usize) -> usize {
         let mut pos = 0;
+        let mut after_singleline_comment = false;
         for (idx, token) in formatted_tokens.tokens().enumerate() {
+            if self.lacks_required_line_break(after_singleline_comment, token) {
+                pos += self.nl_len();
+            }
             pos += self.ws_len(token);
             if idx >= token_idx {
                 break;
             }
             pos += token.0.get_content().len();
+            after_singleline_comment = matches!(
+                token.0.get_token_type(),
+                TokenType::Comment(kind) if kind.is_singleline()
+            );
         }
         pos
     }
